@@ -790,7 +790,7 @@ def rule_e(prog, rep):
            {"inputs": "sliced([2, 0]): column 2 must become column 0"})
     rep.check(("entry", "int") not in table, "R-C06-e", where, "sliced: entry pass, order int", "coordinate dropped", "an integer order must drop the coordinate")
     bi = table.get(("entry", "int", "break"))
-    okb = bi is not None and any(c.op == "cmp" and c.args[0] == "==" and not pol and c.args[1].op == "sub" and c.args[1].args[0].op == "dkey" for c, pol in bi.guards)
+    okb = bi is not None and any(c.op == "cmp" and c.args[0] == "==" and not pol and any(a.op == "sub" and a.args[0].op == "dkey" for a in c.args[1:]) for c, pol in bi.guards)
     rep.check(okb, "R-C06-e", where, "sliced: integer order keeps exactly the entries whose coordinate equals it", "break when coord != order", "entries with another coordinate are not dropped",
               witness={"inputs": "sliced(1) on a 2-D index returns rows of every column"})
     bl = table.get(("entry", "list", "break"))
